@@ -83,7 +83,8 @@ func zzReadEnv(ck int, v0, v1 int64) (e *env.Env, p0, p1 string, read func(i int
 
 var zzReadForms = []string{"variable", "var-statement", "parameter", "list-literal", "map-literal", "defer-argument", "function-result", "swap", "rotate-through-variable",
 	"go-argument", "closure-result-after-defer", "two-targets-from-one-element", "variadic-parameter", "return-list",
-	"left-operand-of-binary-operator", "left-operand-of-comparison", "spread-assignment", "spread-var"}
+	"left-operand-of-binary-operator", "left-operand-of-comparison", "spread-assignment", "spread-var",
+	"value-ok-form", "spread-argument", "deferred-spread-argument", "switch-subject", "in-item", "map-literal-key", "indexed-container", "for-in-variable"}
 
 // ZZ_C10_read_is_a_value: container kind x receiving form; old and new
 // payloads symbolic.
@@ -151,6 +152,52 @@ func ZZ_C10_read_is_a_value() {
 	case 15:
 		src = "b = " + p0 + " == func() { old = " + p0 + "; " + p0 + " = wnew; return old }(); [b ? " + p1 + " : wnew - 1]"
 		want = []int64{v1}
+	case 18:
+		// `x, ok = c[i]`
+		if ck == 4 || ck == 5 || ck == 7 {
+			return
+		}
+		src = "x, ok = " + p0 + "; " + p0 + " = wnew; [x]"
+		want = []int64{v0}
+	case 19, 20:
+		// f(c...) hands each element over as a value (also when the call is deferred)
+		if ck != 0 && ck != 1 {
+			return
+		}
+		if form == 19 {
+			src = "f = func(a, b) { c[0] = wnew; return a }; [f(c...)]"
+		} else {
+			src = "r = 0; f = func(a, b) { r = a }; g = func() { defer f(c...); c[0] = wnew }; g(); [r]"
+		}
+		want = []int64{v0}
+	case 21:
+		// the subject is read before the case operands run
+		e.Define("vold", v0)
+		src = "r = 0; switch " + p0 + " { case func() { " + p0 + " = wnew; return vold }(): r = 1 }; [r]"
+		want = []int64{1}
+	case 22:
+		e.Define("vold", v0)
+		src = "b = " + p0 + " in [func() { " + p0 + " = wnew; return vold }()]; [b ? 1 : 0]"
+		want = []int64{1}
+	case 23:
+		e.Define("vold", v0)
+		src = "m = {" + p0 + ": func() { " + p0 + " = wnew; return 1 }()}; [m[vold] ?? 0]"
+		want = []int64{1}
+		zz.Assume(v0 != w) // (with equal payloads both readings give the same map)
+	case 24:
+		// c[0][f()]: the inner container is the one c[0] held before f ran
+		if ck != 6 {
+			return
+		}
+		src = "[c[0][func() { c[0] = [wnew]; return 0 }()]]"
+		want = []int64{v0}
+		wantC0 = w
+	case 25:
+		if ck != 0 && ck != 1 {
+			return
+		}
+		src = "r = []; for x in c { c[0] = wnew; r += x; break }; r"
+		want = []int64{v0}
 	case 16, 17:
 		// `x, y = c` spreads a slice over its targets
 		if ck != 0 && ck != 1 {
